@@ -238,8 +238,9 @@ FIELDS.declare(POOL, "_queue", type=QUEUE)
 FIELDS.declare(POOL, "_done_event", type=EVENT)
 FIELDS.declare(POOL, "_logger", type="logging.Logger")
 FIELDS.declare(POOL, LOCK)
-for _f in ("_min_threads", "_max_threads", "_threads", "_thread_id", "_timeout", NB, NBA, PEND):
+for _f in ("_min_threads", "_max_threads", "_thread_id", "_timeout", NB, NBA, PEND):
     FIELDS.declare(POOL, _f)
+FIELDS.declare(POOL, "_threads", elem_type=THREAD)
 
 
 def _int_ok(v):
@@ -308,6 +309,7 @@ def pool_inv(c, p, heap="old"):
         V.is_int(rd(p, NB)), V.is_int(rd(p, NBA)), V.is_list(rd(p, THREADS)), Val.llen(rd(p, THREADS)) >= 0,
         V.is_list(c.gold("q_items")), Val.llen(c.gold("q_items")) >= 0,
         V.is_list(c.gold("pool_accepted")), Val.llen(c.gold("pool_accepted")) >= 0,
+        Val.i(rd(q, "unfinished_tasks")) >= Val.llen(c.gold("q_items")),       # Queue: every queued item is unfinished
         V.is_obj(rd(q, "all_tasks_done")), Val.ref(rd(q, "all_tasks_done")) >= 0,
         cond_owner(Val.ref(rd(q, "all_tasks_done"))) == Val.ref(q),
         pool_unbounded(Val.ref(p)) == (Val.i(rd(q, "maxsize")) == 0))      # definition of the abbreviation used by callers
@@ -344,9 +346,16 @@ Contract(
         ("refuses_when_stopped", lambda c: implies(_stopped(c, c.a.self), z3.And(
             c.ret == V.B(False), c.gnew("threads_started") == c.gold("threads_started"))), ("C09", "C11")),
         ("stop_flag_untouched", lambda c: _stopped(c, c.a.self, "new") == _stopped(c, c.a.self), ("C11",)),
-        ("lock_invariant_holds_on_return", lambda c: implies(c.returns, lock_inv(c, c.a.self)), ("C10",)),
+        ("refuses_only_at_max_or_stopped", lambda c: implies(
+            z3.And(c.ret == V.B(False), c.gnew("thread_start_failures") == c.gold("thread_start_failures"),
+                   z3.Not(_stopped(c, c.a.self))),
+            Val.i(c.new(c.a.self, NB)) >= Val.i(c.new(c.a.self, "_max_threads"))), ("C10",)),
+        ("pending_count_untouched", lambda c: c.new(c.a.self, PEND) == c.old(c.a.self, PEND), ("C10",)),
+        ("lock_invariant_holds_on_return", lambda c: implies(c.returns, z3.And(lock_inv(c, c.a.self),
+                                                                              V.is_int(c.new(c.a.self, "_thread_id")))), ("C10",)),
     ],
-    modifies=_POOLW + [Ghost("threads_started"), Fresh("name"), Fresh("daemon"), Fresh("args")],
+    modifies=[Field(lambda c: c.a.self, f) for f in (NB, NBA, THREADS, "_thread_id")] +
+             [Ghost("threads_started"), Ghost("thread_start_failures"), Fresh("name"), Fresh("daemon"), Fresh("args")],
     props=("C10", "C09"),
 )
 REGISTRY_TP[POOL + ".__start_thread"].monitor = PoolMonitor()
@@ -368,8 +377,16 @@ Contract(
         ("accepts_callables_when_unbounded", lambda c: implies(z3.And(has_attr(c.a.method, sv("__call__")),
                                                                       pool_unbounded(Val.ref(c.a.self))), c.returns), ("C04", "C09")),
         ("callables_have_call", lambda c: implies(V.is_fun(c.a.method), has_attr(c.a.method, sv("__call__"))), ("C04",)),
+        # C10, safety core of the growth rule: when enqueue returns on a running pool, either a worker was just started,
+        # or the workers are not all taken (pending <= threads), or the pool is at max_threads
+        ("grows_when_all_workers_are_taken", lambda c: implies(
+            z3.And(c.returns, z3.Not(_stopped(c, c.a.self, "new")),
+                   c.gnew("thread_start_failures") == c.gold("thread_start_failures")),
+            z3.Or(c.gnew("threads_started") == c.gold("threads_started") + 1,
+                  Val.i(c.new(c.a.self, PEND)) <= Val.i(c.new(c.a.self, NB)),
+                  Val.i(c.new(c.a.self, NB)) >= Val.i(c.new(c.a.self, "_max_threads")))), ("C10", "C09")),
     ],
-    modifies=_POOLW + [Ghost(g) for g in ("pool_accepted", "q_items", "q_puts", "threads_started", "call_log", "env_calls")] +
+    modifies=_POOLW + [Ghost(g) for g in ("pool_accepted", "q_items", "q_puts", "threads_started", "thread_start_failures", "call_log", "env_calls")] +
              [Field(lambda c: c.old(c.a.self, "_queue"), "unfinished_tasks")] +
              [Fresh(f) for f in ("_logger", "_done_event", _CB, _EX, _E + "event", _E + "data", _E + "exception", "_flag",
                                  "name", "daemon", "args")],
@@ -411,10 +428,102 @@ Contract(
     loops={0: LoopSpec(lambda L: z3.And(
         L.ghost("q_dones") - L.ghost0("q_dones") == L.ghost("q_gets") - L.ghost0("q_gets"),
         V.is_list(L.ghost("q_items")), Val.llen(L.ghost("q_items")) >= 0,
-        V.is_int(L.field(L.field0(L.v0("self"), "_queue"), "unfinished_tasks"))), "drain",
+        V.is_int(L.field(L.field0(L.v0("self"), "_queue"), "unfinished_tasks")),
+        Val.i(L.field(L.field0(L.v0("self"), "_queue"), "unfinished_tasks")) >= Val.llen(L.ghost("q_items"))), "drain",
         mutates=(("unfinished_tasks", lambda L: L.field0(L.v0("self"), "_queue")),))},
     modifies=_POOLW + [Field(lambda c: c.old(c.a.self, "_queue"), "unfinished_tasks")] +
              [Ghost(g) for g in ("q_items", "q_gets", "q_dones")],
     props=("C11",),
 )
 REGISTRY_TP[POOL + ".clear"].monitor = PoolMonitor()
+
+
+def _typed_counters(L):
+    me = L.v0("self")
+    return z3.And(V.is_int(L.field(me, NB)), V.is_int(L.field(me, NBA)), V.is_int(L.field(me, PEND)),
+                  V.is_int(L.field(me, "_thread_id")), V.is_list(L.field(me, THREADS)), Val.llen(L.field(me, THREADS)) >= 0)
+
+
+def _queue_counts(L):
+    q = L.field0(L.v0("self"), "_queue")
+    return z3.And(V.is_int(L.field(q, "unfinished_tasks")), V.is_list(L.ghost("q_items")), Val.llen(L.ghost("q_items")) >= 0,
+                  Val.i(L.field(q, "unfinished_tasks")) >= Val.llen(L.ghost("q_items")),
+                  V.is_list(L.ghost("pool_accepted")), Val.llen(L.ghost("pool_accepted")) >= 0)
+
+
+Contract(
+    POOL + ".start",
+    requires=[("pool", lambda c: pool_inv(c, c.a.self))],
+    ensures=[
+        ("no_op_when_running", lambda c: implies(z3.Not(_stopped(c, c.a.self)), z3.And(
+            c.returns, c.gnew("threads_started") == c.gold("threads_started"), z3.Not(_stopped(c, c.a.self, "new")))),
+         ("C11",)),
+        ("stop_flag_cleared", lambda c: implies(c.returns, z3.Not(_stopped(c, c.a.self, "new"))), ("C11", "C09")),
+        ("queue_untouched", lambda c: z3.And(c.gnew("q_items") == c.gold("q_items"), c.gnew("call_log") == c.gold("call_log")),
+         ("C09",)),
+    ],
+    loops={k: LoopSpec(lambda L: _typed_counters(L), "spawn",
+                       mutates=tuple((f, (lambda L: L.v0("self"))) for f in (NB, NBA, THREADS, PEND, "_thread_id")))
+           for k in (0, 1)},
+    modifies=_POOLW + [Field(lambda c: c.old(c.a.self, "_done_event"), "_flag"), Ghost("threads_started"),
+                       Ghost("thread_start_failures"), Fresh("name"), Fresh("daemon"), Fresh("args")],
+    props=("C11", "C09", "C10"),
+)
+REGISTRY_TP[POOL + ".start"].monitor = PoolMonitor()
+
+Contract(
+    POOL + ".stop",
+    requires=[("pool", lambda c: pool_inv(c, c.a.self))],
+    ensures=[
+        ("no_op_when_stopped", lambda c: implies(_stopped(c, c.a.self), z3.And(
+            c.returns, c.gnew("q_items") == c.gold("q_items"), c.new(c.a.self, THREADS) == c.old(c.a.self, THREADS),
+            _stopped(c, c.a.self, "new"))), ("C11",)),
+        ("stopped_state_is_restartable", lambda c: implies(z3.And(c.returns, z3.Not(_stopped(c, c.a.self))), z3.And(
+            _stopped(c, c.a.self, "new"),
+            c.new(c.old(c.a.self, "_queue"), "unfinished_tasks") == V.I(0))), ("C11", "C12")),
+        ("no_task_started_by_stop", lambda c: z3.And(c.gnew("call_log") == c.gold("call_log"),
+                                                    c.gnew("threads_started") == c.gold("threads_started")), ("C09",)),
+    ],
+    loops={0: LoopSpec(_queue_counts, "sentinels", mutates=(("unfinished_tasks", lambda L: L.field0(L.v0("self"), "_queue")),))},
+    modifies=_POOLW + [Field(lambda c: c.old(c.a.self, "_done_event"), "_flag"),
+                       Field(lambda c: c.old(c.a.self, "_queue"), "unfinished_tasks")] +
+             [Ghost(g) for g in ("q_items", "q_gets", "q_dones", "q_puts", "pool_accepted")] + [Fresh("args")],
+    props=("C11", "C09", "C12"),
+)
+# `del self._threads[:]` happens after every worker of the snapshot has been joined: the one write outside the lock
+REGISTRY_TP[POOL + ".stop"].monitor = PoolMonitor(exempt=(THREADS,))
+
+
+def _run_inv(L):
+    # `already_cleaned` is the code's own record of "this worker has been un-counted"; the conjunct is stated when
+    # the local exists (the accounting obligations of pyvc.monitor do not depend on it)
+    ac = L.st.locals.get("already_cleaned")
+    return z3.And(L.ghost("w_counted"), z3.Not(L.ghost("w_active")),
+                  z3.Not(V.truthy(ac)) if z3.is_expr(ac) else z3.BoolVal(True),
+                  L.ghost("q_dones") - L.ghost0("q_dones") == L.ghost("q_gets") - L.ghost0("q_gets"),
+                  L.ghost("env_calls") - L.ghost0("env_calls") == L.ghost("q_gets") - L.ghost0("q_gets"),
+                  V.is_int(L.field(L.v0("self"), PEND)),
+                  V.is_int(L.field(L.field0(L.v0("self"), "_queue"), "unfinished_tasks")))
+
+
+Contract(
+    POOL + ".__run",
+    requires=[("pool", lambda c: pool_inv(c, c.a.self)),
+              ("worker-is-counted-and-idle", lambda c: z3.And(c.gold("w_counted"), z3.Not(c.gold("w_active"))))],
+    ensures=[
+        ("worker_uncounted_exactly_once", lambda c: z3.Not(c.gnew("w_counted")), ("C10", "C09")),
+        ("one_task_done_per_item_taken", lambda c: c.gnew("q_dones") - c.gold("q_dones") == c.gnew("q_gets") - c.gold("q_gets"),
+         ("C09", "C11")),
+        ("each_task_taken_is_executed_once", lambda c: z3.Or(
+            c.gnew("env_calls") - c.gold("env_calls") == c.gnew("q_gets") - c.gold("q_gets"),
+            c.gnew("env_calls") - c.gold("env_calls") == c.gnew("q_gets") - c.gold("q_gets") - 1), ("C09",)),
+    ],
+    loops={0: LoopSpec(_run_inv, "serving", mutates=(("unfinished_tasks", lambda L: L.field0(L.v0("self"), "_queue")),
+                                                     (PEND, lambda L: L.v0("self")), (NB, lambda L: L.v0("self")),
+                                                     (NBA, lambda L: L.v0("self")), (THREADS, lambda L: L.v0("self"))))},
+    modifies=_POOLW + [Field(lambda c: c.old(c.a.self, "_queue"), "unfinished_tasks")] +
+             [Ghost(g) for g in ("q_items", "q_gets", "q_dones", "w_counted", "w_active", "call_log", "env_calls", "env_outcomes", "env_kind",
+                                 "env_val", "bind_err")] + [Fresh("args")],
+    props=("C09", "C10", "C11"),
+)
+REGISTRY_TP[POOL + ".__run"].monitor = PoolMonitor(worker=True)
